@@ -983,7 +983,7 @@ class GeneralThermodynamics:
         # Updates a list of composition sets with new conditions
         # Return chemical potential, matrix comp set, precipitate comp set, and whether there is a miscibility gap
         def _update_composition_sets(composition_sets):
-            cond = self._getConditions(x, T)
+            cond = self._getConditions(x, T, self.gOffset)
             phases, sub_models = self._setupSubModels([self.phases[0], precPhase])
             result, composition_sets = local_equilibrium(self.db, self.elements, phases, cond,
                                                          sub_models, self.phase_records,
